@@ -23,6 +23,10 @@ from harness.common.par import pmap
 from harness.common.tlc import MachineryError
 
 SPEC = os.path.join(tlc.SPECS, "drift")
+# the canvas is float32, so the Fourier cross-correlation of two IDENTICAL images is symmetric only to
+# complex64 rounding and the parabolic vertex is ~1e-6..1e-5 px instead of 0 (exactly 0 with a float64
+# canvas); 1e-4 px is two orders below the finest step 1/upsample of any factor used here
+FIXED_POINT_TOL = 1e-4
 OTHER_ANGLES = [17.0, 33.3, 45.0, 123.0, 200.5, 271.0, 359.0]
 
 
@@ -84,7 +88,7 @@ def run_case(arg):
                 before = [kn.copy() for kn in dc.knots]
                 dc.align_translation(upsample_factor=u, show_merged=False, show_images=False)
                 mv = max(float(np.abs(a - b).max()) for a, b in zip(before, dc.knots))
-                if mv > 1e-6:
+                if mv > FIXED_POINT_TOL:
                     bad(f"C15:fixed-point:upsample={'1' if u == 1 else '>1'}", f"{k} knot(s), upsample {u}: identical images moved the knots by {mv:.4g} px")
                     break
             # other angles: knot-count independence and the rotation formula
@@ -123,7 +127,7 @@ def check(rep, tier, seed):
     quick = tier == "quick"
     rep.assume("exact placement compared at 1e-9 px for right angles; other angles relationally (1e-8 px)",
                "stacks of 2..4 images of equal shape; identical-stack fixed point checked with the NumPy estimator "
-               "the library uses (upsample 1, 4, 8)", "weight sums compared to 0.2 % (float32 accumulation)")
+               "the library uses (upsample 1..16); zero means < 1e-4 px because the canvas is float32", "weight sums compared to 0.2 % (float32 accumulation)")
     r = tlc.run_tlc("DriftGeom", "DriftMC.cfg", spec_dir=SPEC, workers=8, timeout=900)
     rep.add_tlc(r, "DriftGeom: KnotIndependent / CentreToCentre / Injective")
     tlc.expect_clean(r, "DriftMC")
